@@ -166,7 +166,7 @@ def manual_submitter_tasks(oracles, budget, graphs):
         for tag, gkw in (("sz1-mx2", dict(size=1, max_nodes=2, distributed=False)), ("sz2-mxN", dict(size=2, max_nodes=None, distributed=False))):
             actors = [dict(name="usr", argv=["jade", "try-submit-jobs", "{out}"], host="login1", guard="submitted_incomplete", repeat=n + 2),
                       rec_actor(n)]
-            sc = mk_scen(bb, gkw, actors=actors)
+            sc = mk_scen(bb, gkw, actors=actors, free_at_poll=True)
             tasks.append(dict(id=f"manual-{g}-{tag}-b{budget[0]}", scen=sc, oracles=["Obs"] + oracles, budget=budget,
                               cls="no-distributed-submitter+" + _cls(bb, gkw)))
     return tasks
@@ -183,7 +183,7 @@ def user_round_tasks(oracles, budget, graphs, params=None):
             for host in ("login1", "login7"):
                 actors = [dict(name="usr", argv=["jade", "try-submit-jobs", "{out}"], host=host, guard="submitted"),
                           rec_actor(n)]
-                sc = mk_scen(bb, gkw, actors=actors)
+                sc = mk_scen(bb, gkw, actors=actors, free_at_poll=True)
                 tasks.append(dict(id=f"usr-{g}-{tag}-{host}-b{budget[0]}", scen=sc, oracles=["Obs"] + oracles,
                                   budget=budget, cls="user-round+" + _cls(bb, gkw)))
     return tasks
@@ -574,6 +574,7 @@ def c06(tier):
     # a failing status query / a lock timeout in a round must not make the limit forgettable
     for t in rep_tasks(["C06"], (0, 1), graphs=["indep3", "indep4"], params=[("sz1-mx1", dict(size=1, max_nodes=1)), ("sz1-mx2", dict(size=1, max_nodes=2))]):
         t["fault"] = dict(plan="c11", kinds=["squeue", "lock"])
+        t["scen"]["free_at_poll"] = True
         t["id"] += "-squeue-or-lock-fault"
         t["scen"]["actors"] = [dict(name="rec", argv=["jade", "try-submit-jobs", "{out}"], host="login2", guard="idle_incomplete", repeat=3)]
         tasks.append(t)
@@ -1183,6 +1184,7 @@ def c08(tier):
     # a status query that fails for a whole round while results are waiting to be collected
     for t in rep_tasks(["C08S"], (0, 1), graphs=["chain3", "indep3", "fork"], params=[("sz1-mx2", dict(size=1, max_nodes=2)), ("sz2-mxN", dict(size=2, max_nodes=None))]):
         t["fault"] = dict(plan="c11", kinds=["squeue"])
+        t["scen"]["free_at_poll"] = True
         t["id"] += "-squeue-fault"
         st.append(t)
     for t in st:
@@ -1375,7 +1377,7 @@ def c11_tasks(tier):
             for lockmode in ("never_break", "break_stale"):
                 actors = [dict(name="rec", argv=["jade", "try-submit-jobs", "{out}"], host="login2", guard="idle_incomplete", repeat=2),
                           dict(name="recsame", argv=["jade", "try-submit-jobs", "{out}"], host="login1", guard="idle_incomplete", after="rec")]
-                sc = mk_scen(bb, gkw, actors=actors, level=2, lockmode=lockmode)
+                sc = mk_scen(bb, gkw, actors=actors, level=2, lockmode=lockmode, free_at_poll=True)
                 for victims in (["login"], ["n"], ["rec"]):
                     t = dict(id=f"c11-{g}-{tag}-{lockmode}-{victims[0]}", scen=sc, oracles=["Obs", "C11"],
                              budget=(0, 1) if tier == "quick" else (0, 1), fault=dict(plan="c11", victims=victims),
@@ -1383,7 +1385,7 @@ def c11_tasks(tier):
                     tasks.append(t)
                 if tier == "quick" and lockmode == "never_break":
                     # all batches in flight at once: a failing status query in a round that has nothing to submit
-                    sc2 = mk_scen(bb, dict(size=1, max_nodes=None), actors=actors, level=2, lockmode=lockmode)
+                    sc2 = mk_scen(bb, dict(size=1, max_nodes=None), actors=actors, level=2, lockmode=lockmode, free_at_poll=True)
                     tasks.append(dict(id=f"c11-{g}-sz1-mxN-{lockmode}-squeue", scen=sc2, oracles=["Obs", "C11"], budget=(0, 1),
                                       fault=dict(plan="c11", kinds=["squeue", "sbatch"]), cls=f"fault-in-round+{lockmode}"))
                 if tier == "thorough":
